@@ -1786,7 +1786,6 @@ package mpb
 //@ func makeExtenderFunc$2
 //@   props    C15 C02
 //@   requires base != nil && stat.AvailableWidth >= 0
-//@   loop 1   invariant 0 <= left && right < len(rows) && left + right == len(rows) - 1
 
 //@ func (*Progress).AddBar
 //@   props    C02 C09
